@@ -7,7 +7,8 @@ import WcModel.Model.WinDrive
 
   Chain:  fnmatch(name, p)  =  re.fullmatch(WcParse(p).parse(), name)          [code]
           WcParse(p).parse() = render (parse p)        (text equality, stream K1, sampled)
-          toRe (parse p) ≈ wrap (comp (parsePat p))    (AST equality mod. grouping, stream K1', sampled)
+          toRe (parse p) ≈ wrap (comp (parsePat p))    (AST equality mod. grouping, stream K1', sampled; PROVED for printed
+                                                        patterns: `pass_print`, `C01_faithful` in Properties/C01faithful.lean)
           FullMatch (wrap (comp g)) s ↔ Lang g s       (THIS FILE, proved for all g, s)
 
   Full statement (what the property says):
